@@ -540,7 +540,8 @@ fn fut_body<'a>(w: Arc<World>, id: OpId, p: &'a mut Payload, body: Vec<Step>, mu
     w.begin(id, p);
     let seen = p.log.len() as u32;
     let guard = EndGuard { w: w.clone(), op: id, done: false };
-    async move {
+    let w2 = w.clone();
+    let inner = async move {
         let _token = token;
         let mut guard = guard;
         for s in body.iter() {
@@ -600,7 +601,50 @@ fn fut_body<'a>(w: Arc<World>, id: OpId, p: &'a mut Payload, body: Vec<Step>, mu
         guard.done = true;
         Res { op: id as u32, seen }
     }
-    .boxed()
+    .boxed();
+    Box::pin(SlotBound { inner: Some(inner), w: w2, op: id })
+}
+
+/// A hand-written future around the operation's async block: it stands for a future that keeps its `&mut T` borrow until it is
+/// destroyed (and may use it in its destructor). The library has to destroy it inside the operation's slot: once another
+/// operation of the object has begun, the borrow is aliased.
+struct SlotBound<'a> {
+    inner: Option<BoxFuture<'a, Res>>,
+    w: Arc<World>,
+    op: OpId,
+}
+
+impl<'a> Future for SlotBound<'a> {
+    type Output = Res;
+    fn poll(mut self: Pin<&mut Self>, cx: &mut Context<'_>) -> Poll<Res> {
+        match self.inner.as_mut() {
+            Some(f) => f.as_mut().poll(cx),
+            None => Poll::Pending,
+        }
+    }
+}
+
+impl<'a> Drop for SlotBound<'a> {
+    fn drop(&mut self) {
+        drop(self.inner.take());
+        let id = self.op;
+        let later = self.w.with(|i| {
+            let me = &i.ops[id];
+            if me.end == 0 || me.panicked {
+                // (not completed: a cancellation, which EndGuard accounts for)
+                return None;
+            }
+            i.stats.futures_destroyed_after_completion += 1;
+            i.ops.iter().enumerate().find(|(aid, a)| *aid != id && a.obj == me.obj && a.start > me.end).map(|(aid, a)| (aid, a.start, me.end, me.obj, me.kind))
+        });
+        if let Some((aid, astart, end, obj, kind)) = later {
+            let d = format!("the future of {:?} #{} on o{} completed at t={} but was only destroyed after #{} had begun on the same object (t={}): a future that holds its borrow of the data until it is dropped would alias it", kind, id, obj, end, aid, astart);
+            if kind == Kind::FutSync {
+                self.w.note("C08", "future-destroyed-after-slot", Some(obj), Some(id), d.clone());
+            }
+            self.w.fail("C14", "borrow-outlived-slot", Some(obj), Some(id), d);
+        }
+    }
 }
 
 fn nested_desync(w: &Arc<World>, o: usize, id: OpId, body: &[Step], hs: &Handles) {
@@ -1256,6 +1300,48 @@ impl<'a> Future for SlotFuture<'a> {
     }
 }
 
+/// join(a, b): one task, one waker, both futures polled (a first) whenever the task is woken
+struct JoinTwo {
+    w: Arc<World>,
+    gidx: usize,
+    a: Option<(OpId, Kind, FutH)>,
+    b: Option<(OpId, Kind, FutH)>,
+}
+
+impl Future for JoinTwo {
+    type Output = ();
+    fn poll(self: Pin<&mut Self>, cx: &mut Context<'_>) -> Poll<()> {
+        let this = self.get_mut();
+        let w = this.w.clone();
+        for which in 0..2 {
+            let slot = if which == 0 { &mut this.a } else { &mut this.b };
+            let ready = match slot.as_mut() {
+                Some((op, kind, fut)) => {
+                    let mut sf = SlotFuture { w: &w, op: *op, kind: *kind, fut };
+                    match Pin::new(&mut sf).poll(cx) {
+                        Poll::Ready(r) => Some((*op, r)),
+                        Poll::Pending => None,
+                    }
+                }
+                None => None,
+            };
+            if let Some((op, r)) = ready {
+                check_future_result(&w, op, r);
+                w.with(|i| i.ops[op].fut_dropped = true);
+                *slot = None;
+            }
+        }
+        // (the stage names the first future that is still outstanding)
+        match (this.a.as_ref(), this.b.as_ref()) {
+            (None, None) => Poll::Ready(()),
+            (Some((op, _, _)), _) | (None, Some((op, _, _))) => {
+                w.set_stage(this.gidx, Stage::Awaiting(*op));
+                Poll::Pending
+            }
+        }
+    }
+}
+
 impl CallerEnv {
     fn stage(&self, s: Stage) {
         self.w.set_stage(self.gidx, s);
@@ -1276,6 +1362,7 @@ impl CallerEnv {
             Op::FutDesync { .. } | Op::After { .. } => "C07",
             Op::FutSync { .. } => "C08",
             Op::Await { slot } | Op::SyncWait { slot } | Op::PollOnce { slot } | Op::DropFut { slot } | Op::Detach { slot } | Op::AwaitInline { slot } => slot_kind(slot),
+            Op::AwaitJoin { a, .. } => slot_kind(a),
             Op::Release { .. } => "C05",
             Op::Suspend { .. } | Op::AwaitSuspend { .. } | Op::Resume { .. } | Op::DropResumer { .. } => "C13",
             Op::PipeIn { .. } => "C11",
@@ -1502,6 +1589,17 @@ impl CallerEnv {
                     check_future_result(&w, op, r);
                     w.with(|i| i.ops[op].fut_dropped = true);
                     drop(fut);
+                }
+            }
+            Op::AwaitJoin { a, b } => {
+                if *a != *b && matches!(self.slots[*a as usize], Some(Slot::Fut { .. })) && matches!(self.slots[*b as usize], Some(Slot::Fut { .. })) {
+                    let fa = match self.slots[*a as usize].take() { Some(Slot::Fut { op, kind, fut, .. }) => (op, kind, fut), _ => unreachable!() };
+                    let fb = match self.slots[*b as usize].take() { Some(Slot::Fut { op, kind, fut, .. }) => (op, kind, fut), _ => unreachable!() };
+                    self.stage(Stage::Awaiting(fa.0));
+                    w.hist(|| format!("await join of the futures of #{} and #{}", fa.0, fb.0));
+                    w.with(|i| i.stats.joins += 1);
+                    let mut j = JoinTwo { w: w.clone(), gidx: self.gidx, a: Some(fa), b: Some(fb) };
+                    block_on(&mut j);
                 }
             }
             Op::SyncWait { slot } => {
